@@ -203,6 +203,15 @@ theorem str_step_refines (op : StrOp) (st : StrSt) (h : StrInv st) :
   | appM r s => simp [StrOp.step, StrOp.spec, strAbs_setR, StringM.write_data _ _ (h r)]
   | appU r u => simp [StrOp.step, StrOp.spec, strAbs_setR, StringM.write_data _ _ (h r)]
   | appCh r c => simp [StrOp.step, StrOp.spec, strAbs_setR, StringM.write_data _ _ (h r)]
+  | appOwn v r off n => simp [StrOp.step, StrOp.spec, strAbs_setR, StringM.write_data _ _ (h r)]
+  | asgOwn r off =>
+    simp only [StrOp.step, StrOp.spec]
+    cases hs : (st r).store with
+    | none =>
+      have hd : (st r).data = [] := by simp [StringM.data, hs]
+      have : ownCStr (st r).data off = (st r).data := by simp [hd, ownCStr]
+      simp [this]
+    | some b => simp [strAbs_setR]
   | plus r s t => simp [StrOp.step, StrOp.spec, strAbs_setR]
   | plusM r s t => simp [StrOp.step, StrOp.spec, strAbs_setR]
   | plusU r s u => simp [StrOp.step, StrOp.spec, strAbs_setR]
@@ -241,6 +250,12 @@ theorem str_step_inv (op : StrOp) (st : StrSt) (h : StrInv st) : StrInv (op.step
   | appM r s => exact all_setR _ s _ (all_setR st r _ h (StringM.write_term _ _ (h r))) StringM.empty_term
   | appU r u => exact all_setR st r _ h (StringM.write_term _ _ (h r))
   | appCh r c => exact all_setR st r _ h (StringM.write_term _ _ (h r))
+  | appOwn v r off n => exact all_setR st r _ h (StringM.write_term _ _ (h r))
+  | asgOwn r off =>
+    simp only [StrOp.step]
+    cases (st r).store with
+    | none => exact h
+    | some b => exact all_setR st r _ h (StringM.ofUnits_term _)
   | plus r s t => exact all_setR st r _ h (StringM.merge_term _ _)
   | plusM r s t => exact all_setR _ r _ (all_setR st t _ h StringM.empty_term) (StringM.merge_term _ _)
   | plusU r s u => exact all_setR st r _ h (StringM.merge_term _ _)
